@@ -153,7 +153,37 @@ def compare_shapes(ctx, text, ast, label, case):
               (label, path[1], wd, gd), case)
 
 
+FIXED_SRC = [
+    # a stub that refers to a nested class by its dotted name: printing it
+    # calls Lookup on the enclosing class (fix d6f6e21: that used to make the
+    # class unequal to its re-read twin)
+    """class C:
+  class N:
+    z = 0
+    def me(self):
+      return self
+n = C.N()
+r = n.me()
+""",
+    # nested class named like a module-level class (fix 3694df8)
+    """class Node:
+  v = 1
+class Outer:
+  class Node:
+    w = "s"
+    def up(self):
+      return Node()
+    def me(self):
+      return self
+o = Outer.Node().up()
+""",
+]
+
+
 def run(ctx, check_text):
+  for i, src in enumerate(FIXED_SRC):
+    if i % ctx.nshards == ctx.shard:
+      replay(ctx, {"kind": "A", "src": src}, check_text)
   cfgs = [gen_py.Cfg.everything(annotations=0.3, n_stmts=(4, 12)),
           gen_py.Cfg(annotations=0.5, n_stmts=(5, 14))]
 
